@@ -199,7 +199,8 @@ def _child(script, argv, env, cwd, stdin_fd, out_fd, err_fd, logfd, world,
 
 
 def run_cmd(world, cmd, args, stdin=b'', plan=None, cwd=None, env=None,
-            contracts=None, argv0=None, watchdog=None, sched_sock=None):
+            contracts=None, argv0=None, watchdog=None, sched_sock=None,
+            pty_stdin=False):
     """run one trash-cli command in the world; returns Result"""
     prepare()
     script = os.path.join(REPO, SCRIPTS.get(cmd, cmd))
@@ -219,7 +220,11 @@ def run_cmd(world, cmd, args, stdin=b'', plan=None, cwd=None, env=None,
     res.argv = [cmd] + list(args)
     logpath = os.path.join(world.scratch, 'log.%d' % time.monotonic_ns())
     logfd = os.open(logpath, os.O_WRONLY | os.O_CREAT | os.O_APPEND, 0o600)
-    in_r, in_w = os.pipe()
+    if pty_stdin:
+        import pty
+        in_w, in_r = pty.openpty()        # master, slave
+    else:
+        in_r, in_w = os.pipe()
     out_r, out_w = os.pipe()
     err_r, err_w = os.pipe()
     if sched_sock is not None:
@@ -241,11 +246,12 @@ def run_cmd(world, cmd, args, stdin=b'', plan=None, cwd=None, env=None,
     os.close(out_w)
     os.close(err_w)
     os.close(logfd)
-    return pid, (res, in_w, out_r, err_r, logpath, t0, stdin, watchdog)
+    return pid, (res, in_w, out_r, err_r, logpath, t0, stdin, watchdog,
+                 pty_stdin)
 
 
 def finish_cmd(pid, st):
-    res, in_w, out_r, err_r, logpath, t0, stdin, watchdog = st
+    res, in_w, out_r, err_r, logpath, t0, stdin, watchdog, is_pty = st
     watchdog = watchdog or WATCHDOG_S
     try:
         if stdin:
@@ -254,7 +260,8 @@ def finish_cmd(pid, st):
             except OSError:
                 pass
     finally:
-        os.close(in_w)
+        if not is_pty:
+            os.close(in_w)
     bufs = {out_r: [], err_r: []}
     live = [out_r, err_r]
     deadline = t0 + watchdog
@@ -275,6 +282,8 @@ def finish_cmd(pid, st):
             else:
                 live.remove(fd)
     _, status = os.waitpid(pid, 0)
+    if is_pty:
+        os.close(in_w)
     for fd in (out_r, err_r):
         # drain what is left after a kill
         try:
